@@ -110,3 +110,74 @@ def count_nodes(t):
     if isinstance(t, SubRecipe):
         return 1 + count_nodes(t.sub_tree)
     return 1
+
+
+# ---- "twins": values that Python's == (and hash) cannot tell apart but that are written, and must be drawn, differently.
+# Rendering one right after the other in one process exposes anything keyed on value equality (memoisation, dict lookups).
+
+def twin_number(x):
+    if isinstance(x, bool):
+        return x
+    if isinstance(x, Fraction):
+        d = x.denominator
+        if d > 1 and d & (d - 1) == 0 and d <= 64 and abs(x.numerator) < 2 ** 40:
+            return float(x)
+        return x
+    if isinstance(x, float):
+        f = Fraction(x)
+        if f.denominator in (2, 4, 8, 16) and abs(f.numerator) < 2 ** 30:
+            return f
+        return x
+    return x
+
+
+def twin_unit(u):
+    if u is None:
+        return None
+    if UNIT_SYSTEM.has_unit(u) if hasattr(UNIT_SYSTEM, "has_unit") else (u.lower() in set(UNITS)):
+        return u.upper() if u != u.upper() else u.lower()
+    return u
+
+
+def twin_svs(s, units=False):
+    return SVS([twin_number(p) if not isinstance(p, str) else p for p in s._string])
+
+
+def twin_amount(a, units):
+    import dataclasses
+    if isinstance(a, Quantity):
+        return dataclasses.replace(a, value=twin_number(a.value), unit=twin_unit(a.unit) if units else a.unit)
+    if isinstance(a, Proportion) and a.value is not None:
+        return dataclasses.replace(a, value=twin_number(a.value))
+    return a
+
+
+def twin(t, units=False, memo=None):
+    """the same tree with every dyadic Fraction written as the equal float (and back) and, with units=True, every known unit in the
+    other letter case; shared sub recipes stay shared"""
+    memo = {} if memo is None else memo
+    if id(t) in memo:
+        return memo[id(t)]
+    if isinstance(t, Ingredient):
+        r = Ingredient(twin_svs(t.description), twin_amount(t.quantity, units) if t.quantity is not None else None)
+    elif isinstance(t, Reference):
+        r = Reference(twin(t.sub_recipe, units, memo), t.output_index, twin_amount(t.amount, units))
+    elif isinstance(t, Step):
+        r = Step(twin_svs(t.description), tuple(twin(x, units, memo) for x in t.inputs))
+    else:
+        r = SubRecipe(twin(t.sub_tree, units, memo), tuple(twin_svs(n) for n in t.output_names), t.show_output_names)
+    memo[id(t)] = r
+    return r
+
+
+def with_twins(rng, cases, every=6):
+    """cases: list of trees or of tuples whose first element is a tree; after about one case in `every` its twin(s) follow"""
+    out = []
+    for c in cases:
+        out.append(c)
+        if rng.random() < 1.0 / every:
+            t = c[0] if isinstance(c, tuple) else c
+            for units in ((False, True) if rng.random() < 0.5 else (True,)):
+                tw = twin(t, units)
+                out.append(((tw,) + tuple(c[1:])) if isinstance(c, tuple) else tw)
+    return out
